@@ -3,6 +3,7 @@ CONSTANTS
   ATmin = 2
   ATmax = 3
   MaxRetransmit = 1
+  Tol = 0
   NRemotes = 2
   NReqs = 2
   MidSpace = 3
